@@ -13,6 +13,13 @@ import SlipVerif.Driver.Util
    (a slot has a fourth field, the reader/writer/accessor flags, which the model ignores)
    T:<c>:<k>                typep of an instance of c                                 reply  t | nil | !notready
    A:<c>:<k,k,…|->          applicable methods (methods on the listed classes)        reply  k.k | - | !notready
+   K:<j> / X:<j>            keep the current instance in register j / make the instance of register j
+                            current again (it may have been made before a redefinition)  reply  k / slots
+   C                        class-of the current instance: name / is it the registered class object /
+                            (class-precedence (class-of i))                          reply  c/cur|old/c.a.b
+   t:<k>  a:<k,k,…>         typep / applicable methods of the current instance         reply  as T, A
+   G:<g>:<k,k,…>  H:<g>     (add) methods on the listed classes to the persistent generic function g /
+                            call it on the current instance                            reply  g / k.k
    slots are reported sorted by slot name, `u` = unbound; a leading `?` marks a make-instance whose
    supplied initargs reach one slot through two different names (outcome not fixed by the property). -/
 namespace SlipVerif.Driver.Clos
@@ -58,81 +65,148 @@ def showNames (l : List Name) : String :=
   if l.isEmpty then "-" else ".".intercalate (l.map toString)
 
 structure Run where
-  st : State := []
-  cur : Option (Name × Inst) := none
+  w : World := World.empty
+  cur : Option Obj := none
+  curReg : Option Nat := none          -- the register the current instance is also held in
+  regs : List (Nat × Obj) := []        -- kept instances
+  gens : List (Nat × List Name) := []  -- persistent generic functions: classes carrying a method
   out : List String := []   -- reversed
   bad : Option String := none
+
+def setReg (regs : List (Nat × Obj)) (j : Nat) (o : Obj) : List (Nat × Obj) :=
+  (j, o) :: regs.filter (fun p => p.1 ≠ j)
+
+def getReg (regs : List (Nat × Obj)) (j : Nat) : Option Obj :=
+  (regs.find? (fun p => p.1 = j)).map (·.2)
+
+/-- replace the current instance (and its register copy: instances are shared by reference) -/
+def Run.setCur (r : Run) (o : Obj) : Run :=
+  match r.curReg with
+  | some j => { r with cur := some o, regs := setReg r.regs j o }
+  | none => { r with cur := some o }
 
 def step (r : Run) (tok : String) : Run :=
   if r.bad.isSome then r else
   let fail (why : String) : Run := { r with bad := some (why ++ " " ++ tok) }
+  let say (r : Run) (word : String) : Run := { r with out := word :: r.out }
   match tok.splitOn ":" with
   | ["D", c, sup, slots] =>
     match c.toNat?, natList? sup, (listOf slots ";").mapM parseSlot? with
     | some c, some sup, some sl =>
-      { r with st := defclass r.st c { supers := sup, slots := sl }, out := "d" :: r.out }
+      say { r with w := defclassW r.w c { supers := sup, slots := sl } } "d"
     | _, _, _ => fail "defclass"
   | ["P", c] =>
     match c.toNat? with
     | some c =>
-      match precOf r.st c with
-      | some p => { r with out := showNames p :: r.out }
-      | none => { r with out := "!notready" :: r.out }
+      match precOf r.w.st c with
+      | some p => say r (showNames p)
+      | none => say r "!notready"
     | none => fail "prec"
   | ["M", c, args] =>
     match c.toNat?, parseArgs? args with
     | some c, some args =>
-      match makeInstance r.st c args with
-      | .ok i =>
-        let amb := match precOf r.st c with
-          | some p => ambiguous (slotDefsOf r.st p) args
+      match makeObj r.w c args with
+      | .ok o =>
+        let amb := match precOf r.w.st c with
+          | some p => ambiguous (slotDefsOf r.w.st p) args
           | none => false
-        { r with cur := some (c, i), out := ((if amb then "?" else "") ++ showInst i) :: r.out }
-      | .error .notReady => { r with cur := none, out := "!notready" :: r.out }
-      | .error .badInitarg => { r with cur := none, out := "!badarg" :: r.out }
+        say { r with cur := some o, curReg := none } ((if amb then "?" else "") ++ showInst o.slots)
+      | .error .notReady => say { r with cur := none, curReg := none } "!notready"
+      | .error .badInitarg => say { r with cur := none, curReg := none } "!badarg"
     | _, _ => fail "make"
+  | ["K", j] =>
+    match j.toNat?, r.cur with
+    | some j, some o => say { r with regs := setReg r.regs j o, curReg := some j } "k"
+    | some _, none => say r "!noinst"
+    | _, _ => fail "keep"
+  | ["X", j] =>
+    match j.toNat? with
+    | some j =>
+      match getReg r.regs j with
+      | some o => say { r with cur := some o, curReg := some j } (showInst o.slots)
+      | none => say { r with cur := none, curReg := none } "!noinst"
+    | none => fail "recall"
+  | ["C"] =>
+    match r.cur with
+    | some o =>
+      let p := match objPrec r.w o with
+        | some p => showNames p
+        | none => "!notready"
+      say r s!"{o.cls}/{if objIsCurrent r.w o then "cur" else "old"}/{p}"
+    | none => say r "!noinst"
+  | ["t", k] =>
+    match k.toNat?, r.cur with
+    | some k, some o =>
+      match objTypep r.w o k with
+      | some b => say r (if b then "t" else "nil")
+      | none => say r "!notready"
+    | some _, none => say r "!noinst"
+    | _, _ => fail "typep-instance"
+  | ["a", ks] =>
+    match natList? ks, r.cur with
+    | some ks, some o =>
+      match objApplicable r.w o ks with
+      | some l => say r (showNames l)
+      | none => say r "!notready"
+    | some _, none => say r "!noinst"
+    | _, _ => fail "applicable-instance"
+  | ["G", g, ks] =>
+    match g.toNat?, natList? ks with
+    | some g, some ks =>
+      let old := ((r.gens.find? (fun p => p.1 = g)).map (·.2)).getD []
+      say { r with gens := (g, old ++ ks) :: r.gens.filter (fun p => p.1 ≠ g) } "g"
+    | _, _ => fail "defgeneric"
+  | ["H", g] =>
+    match g.toNat?, r.cur with
+    | some g, some o =>
+      let ks := ((r.gens.find? (fun p => p.1 = g)).map (·.2)).getD []
+      match objApplicable r.w o ks with
+      | some l => say r (showNames l)
+      | none => say r "!notready"
+    | some _, none => say r "!noinst"
+    | _, _ => fail "call-generic"
   | ["W", x, v, how, k] =>
     match x.toNat?, v.toInt?, k.toNat?, r.cur with
-    | some x, some v, some k, some (c, i) =>
-      if how = "s" || typep r.st c k = some true then
-        if (getSlot i x).isNone && how = "s" then { r with out := "!noslot" :: r.out } else
-        let i' := writeSlot i x v
-        { r with cur := some (c, i'), out := showInst i' :: r.out }
-      else { r with out := "!noapplicable" :: r.out }
-    | some _, some _, some _, none => { r with out := "!noinst" :: r.out }
+    | some x, some v, some k, some o =>
+      if how = "s" || objTypep r.w o k = some true then
+        if (getSlot o.slots x).isNone && how = "s" then say r "!noslot" else
+        let i' := writeSlot o.slots x v
+        say (r.setCur { o with slots := i' }) (showInst i')
+      else say r "!noapplicable"
+    | some _, some _, some _, none => say r "!noinst"
     | _, _, _, _ => fail "write"
   | ["R", x, _, k] =>
     match x.toNat?, k.toNat?, r.cur with
-    | some x, some k, some (c, i) =>
-      if typep r.st c k = some true then
-        match getSlot i x with
-        | some (some v) => { r with out := toString v :: r.out }
-        | some none => { r with out := "u" :: r.out }
-        | none => { r with out := "!noslot" :: r.out }
-      else { r with out := "!noapplicable" :: r.out }
-    | some _, some _, none => { r with out := "!noinst" :: r.out }
+    | some x, some k, some o =>
+      if objTypep r.w o k = some true then
+        match getSlot o.slots x with
+        | some (some v) => say r (toString v)
+        | some none => say r "u"
+        | none => say r "!noslot"
+      else say r "!noapplicable"
+    | some _, some _, none => say r "!noinst"
     | _, _, _ => fail "read"
   | ["U", x] =>
     match x.toNat?, r.cur with
-    | some x, some (c, i) =>
-      if (getSlot i x).isNone then { r with out := "!noslot" :: r.out } else
-      let i' := unbindSlot i x
-      { r with cur := some (c, i'), out := showInst i' :: r.out }
-    | some _, none => { r with out := "!noinst" :: r.out }
+    | some x, some o =>
+      if (getSlot o.slots x).isNone then say r "!noslot" else
+      let i' := unbindSlot o.slots x
+      say (r.setCur { o with slots := i' }) (showInst i')
+    | some _, none => say r "!noinst"
     | _, _ => fail "unbind"
   | ["T", c, k] =>
     match c.toNat?, k.toNat? with
     | some c, some k =>
-      match typep r.st c k with
-      | some b => { r with out := (if b then "t" else "nil") :: r.out }
-      | none => { r with out := "!notready" :: r.out }
+      match typep r.w.st c k with
+      | some b => say r (if b then "t" else "nil")
+      | none => say r "!notready"
     | _, _ => fail "typep"
   | ["A", c, ks] =>
     match c.toNat?, natList? ks with
     | some c, some ks =>
-      match applicable r.st c ks with
-      | some l => { r with out := showNames l :: r.out }
-      | none => { r with out := "!notready" :: r.out }
+      match applicable r.w.st c ks with
+      | some l => say r (showNames l)
+      | none => say r "!notready"
     | _, _ => fail "applicable"
   | _ => fail "token"
 
